@@ -4,7 +4,9 @@
    Model: Lib/Mem.v (bytes, little-endian read/write, nine AMOs, MemMsg request decoding as in up_mem,
    sequential spec, history acceptor) and Lib/MemPipe.v (per-port stall -> request pipe -> service ->
    response pipe under an ARBITRARY oracle = list of atomic actions; one clock cycle of MagicMemoryCL is
-   one such list).  W = message data width in bytes. *)
+   one such list).  Data widths are PER PORT: `W : nat -> Z` gives the message data width in bytes of each port
+   (ports of one memory may carry different message types); a processed request carries its port's width
+   (`wreq = Z * req`), and len = 0 means the width of the port the request arrived on. *)
 From PV Require Import Base.Prelude Lib.Mem Lib.MemPipe Lib.MemProofs.
 Open Scope Z_scope.
 
@@ -28,31 +30,31 @@ Proof. exact (read_after_write_bytewise m a n b k d j). Qed.
 
 (* over a whole processed sequence: a read returns, per byte, what the most recent earlier-processed
    write/AMO covering that byte stored there (or the initial byte when none did) *)
-Theorem C18_read_returns_most_recent_write W l1 w l2 rd m0 k b :
+Theorem C18_read_returns_most_recent_write W l1 (w : wreq) l2 rd m0 k b :
   wf m0 -> q_type rd = TRead -> 0 <= k < Z.of_nat (eff_len W rd) ->
-  stores W w (mem_after W l1 m0) (q_addr rd + k) = Some b ->
-  Forall (fun r => writes_at W r (q_addr rd + k) = false) l2 ->
-  byte_k (p_data (resp_of W rd (mem_after W (l1 ++ w :: l2) m0))) k = b.
+  stores (fst w) (snd w) (mem_after l1 m0) (q_addr rd + k) = Some b ->
+  Forall (no_write (q_addr rd + k)) l2 ->
+  byte_k (p_data (resp_of W rd (mem_after (l1 ++ w :: l2) m0))) k = b.
 Proof. exact (read_returns_most_recent_write W l1 w l2 rd m0 k b). Qed.
 
 Theorem C18_read_returns_initial_if_never_written W l rd m0 k :
   wf m0 -> q_type rd = TRead -> 0 <= k < Z.of_nat (eff_len W rd) ->
-  Forall (fun r => writes_at W r (q_addr rd + k) = false) l ->
-  byte_k (p_data (resp_of W rd (mem_after W l m0))) k = m0 (q_addr rd + k).
+  Forall (no_write (q_addr rd + k)) l ->
+  byte_k (p_data (resp_of W rd (mem_after l m0))) k = m0 (q_addr rd + k).
 Proof. exact (read_returns_initial_if_never_written W l rd m0 k). Qed.
 
-Theorem C18_amo_returns_most_recent_write W l1 w l2 rd op m0 k b :
+Theorem C18_amo_returns_most_recent_write W l1 (w : wreq) l2 rd op m0 k b :
   wf m0 -> q_type rd = TAmo op -> 0 <= k < Z.of_nat (eff_len W rd) ->
-  stores W w (mem_after W l1 m0) (q_addr rd + k) = Some b ->
-  Forall (fun r => writes_at W r (q_addr rd + k) = false) l2 ->
-  byte_k (p_data (resp_of W rd (mem_after W (l1 ++ w :: l2) m0))) k = b.
+  stores (fst w) (snd w) (mem_after l1 m0) (q_addr rd + k) = Some b ->
+  Forall (no_write (q_addr rd + k)) l2 ->
+  byte_k (p_data (resp_of W rd (mem_after (l1 ++ w :: l2) m0))) k = b.
 Proof. exact (amo_returns_most_recent_write W l1 w l2 rd op m0 k b). Qed.
 
-Theorem C18_final_byte_is_most_recent_write W l1 w l2 m0 x b :
-  stores W w (mem_after W l1 m0) x = Some b ->
-  Forall (fun r => writes_at W r x = false) l2 ->
-  mem_after W (l1 ++ w :: l2) m0 x = b.
-Proof. exact (byte_is_most_recent_write W l1 w l2 m0 x b). Qed.
+Theorem C18_final_byte_is_most_recent_write l1 (w : wreq) l2 m0 x b :
+  stores (fst w) (snd w) (mem_after l1 m0) x = Some b ->
+  Forall (no_write x) l2 ->
+  mem_after (l1 ++ w :: l2) m0 x = b.
+Proof. exact (byte_is_most_recent_write l1 w l2 m0 x b). Qed.
 
 (* ---------------------------------------------------------------- AMOs *)
 Theorem C18_amo_returns_old_stores_result op m a n d :
@@ -123,7 +125,7 @@ Proof. exact (responses_echo_requests W reqs qlat rlat m0 sched p). Qed.
 
 Theorem C18_memory_is_fold_of_log W reqs qlat rlat m0 sched :
   let s := exec W (init reqs qlat rlat m0) sched in
-  smem s = mem_after W (untag (slog s)) m0.
+  smem s = mem_after (widths W (slog s)) m0.
 Proof. exact (memory_is_fold_of_log W reqs qlat rlat m0 sched). Qed.
 
 Theorem C18_drained_port_complete W reqs qlat rlat m0 sched p :
@@ -161,21 +163,21 @@ Theorem C18_single_port_deterministic W reqs qlat rlat m0 sched :
   exists done rest more,
     reqs 0%nat = done ++ rest /\
     untag (slog s) = done /\
-    resps W done m0 = delivered s 0%nat ++ more /\
-    smem s = mem_after W done m0.
+    resps (uniform (W 0%nat) done) m0 = delivered s 0%nat ++ more /\
+    smem s = mem_after (uniform (W 0%nat) done) m0.
 Proof. exact (single_port_deterministic W reqs qlat rlat m0 sched). Qed.
 
 (* ---------------------------------------------------------------- the acceptor run on the real memory's histories *)
-Theorem C18_check_history_sound W init reqs order out img complete l :
-  check_history W init reqs order out img complete l = true ->
-  history_ok W init reqs order out img complete l.
-Proof. exact (check_history_sound W init reqs order out img complete l). Qed.
+Theorem C18_check_history_sound Ws init reqs order out img complete l :
+  check_history Ws init reqs order out img complete l = true ->
+  history_ok Ws init reqs order out img complete l.
+Proof. exact (check_history_sound Ws init reqs order out img complete l). Qed.
 
-Theorem C18_accepted_history_echo W init reqs order out img complete l p rs os :
-  check_history W init reqs order out img complete l = true ->
+Theorem C18_accepted_history_echo Ws init reqs order out img complete l p rs os :
+  check_history Ws init reqs order out img complete l = true ->
   nth_error reqs p = Some rs -> nth_error out p = Some os ->
   exists rs1 rest, rs = rs1 ++ rest /\ Forall2 echo os rs1.
-Proof. exact (accepted_history_echo W init reqs order out img complete l p rs os). Qed.
+Proof. exact (accepted_history_echo Ws init reqs order out img complete l p rs os). Qed.
 
 (* ---------------------------------------------------------------- non-vacuity *)
 (* two ports hammering one word with AMO add / a straddling sub-word write, latency 2 and 3, an
@@ -183,23 +185,25 @@ Proof. exact (accepted_history_echo W init reqs order out img complete l p rs os
 Definition ex_reqs (p : nat) : list req :=
   match p with
   | 0%nat => [mkReq TWrite 1 16 0 0x01020304; mkReq (TAmo AAdd) 2 16 0 0xff; mkReq TRead 3 17 2 0]
-  | 1%nat => [mkReq TWrite 7 18 3 0xaabbcc; mkReq (TAmo AMinu) 8 16 0 5]
+  | 1%nat => [mkReq TWrite 7 18 3 0xaabbcc; mkReq (TAmo AMinu) 8 16 0 5; mkReq TRead 9 20 0 0]
   | _ => []
   end.
 Definition ex_cyc : cyc := mkCyc (fun _ => true) (fun _ => true).
-Definition ex_final := run_cycles 4 2 (init ex_reqs (fun _ => 2%nat) (fun p => S p) mem0) (repeat ex_cyc 12).
+(* port 0 carries 32-bit data, port 1 64-bit data: its full-width AMO covers 8 bytes *)
+Definition ex_W (p : nat) : Z := match p with 0%nat => 4 | _ => 8 end.
+Definition ex_final := run_cycles ex_W 2 (init ex_reqs (fun _ => 2%nat) (fun p => S p) mem0) (repeat ex_cyc 14).
 Example C18_nonvacuous_run :
-  map fst (slog ex_final) = [0; 1; 0; 1; 0]%nat /\
+  map fst (slog ex_final) = [0; 1; 0; 1; 0; 1]%nat /\
   drained ex_final 0 /\ drained ex_final 1 /\
   map p_data (delivered ex_final 0) = [0; 0xbbcc0304; 0] /\
-  map p_data (delivered ex_final 1) = [0; 0xbbcc0403] /\
-  read_n (smem ex_final) 16 5 = 0xaa00000005.
+  map p_data (delivered ex_final 1) = [0; 0xaabbcc0403; 0] /\
+  read_n (smem ex_final) 16 9 = 5.
 Proof. vm_compute. repeat split; reflexivity. Qed.
 
 Example C18_nonvacuous_acceptor :
-  check_history 4 [(20, 9)]
+  check_history [4; 2] [(20, 9)]
     [[mkReq TWrite 1 16 2 0xdead1234; mkReq TRead 2 16 0 0]; [mkReq (TAmo AMaxu) 5 16 0 0x77]]
-    [(0%nat, CWrite 16 2 0x1234); (1%nat, CAmo 10 16 4 0x77); (0%nat, CRead 16 4)]
+    [(0%nat, CWrite 16 2 0x1234); (1%nat, CAmo 10 16 2 0x77); (0%nat, CRead 16 4)]
     [[mkResp TWrite 1 0 0 0; mkResp TRead 2 0 0 0x1234]; [mkResp (TAmo AMaxu) 5 0 0 0x1234]]
     [(16, 0x34); (17, 0x12); (18, 0); (20, 9)] true
     [(0%nat, mkReq TWrite 1 16 2 0xdead1234); (1%nat, mkReq (TAmo AMaxu) 5 16 0 0x77); (0%nat, mkReq TRead 2 16 0 0)]
